@@ -224,12 +224,18 @@ def path_ser(ctx, arg):
     I, w = ctx.I, ctx.w
     vi = I.prog.variant_index
     (na, oa), (nb, ob) = arg['orders']
-    spec = arg['schema']
+    spec_a = arg['schema']
+    spec_b = arg.get('schema_b') or spec_a
 
     def build(order, tag):
+        spec = spec_a if tag == 'A' else spec_b
         def comp(i, c):
             if c[0] == 'uint':
                 return Adt('Component', vi('Component', 'UInt'), [w.fresh_int('%s_u%d' % (tag, i), 0, 2**64 - 1)])
+            if c[0] == 'custom':
+                return Adt('Component', vi('Component', 'Var'), [Adt('Var', vi('Var', 'Custom'), [mkstring(c[1])])])
+            if c[0] == 'str' and len(c[1]) > 1:
+                return c06.comp_value(I, ('str', [ord(x) for x in c[1]]))
             if c[0] == 'str':
                 ch = w.fresh_int('%s_s%d' % (tag, i))
                 w.assume(C.domain(ch))
@@ -242,7 +248,21 @@ def path_ser(ctx, arg):
             raise Unsupported('menu schema rejected')
         used = set(c06.NUMVARS) | {'pre_release', 'dirty', 'bumped_timestamp', 'last_timestamp'} | set(c06.TEXTVARS)
         sv = c06.SymVars(w, I, used, dict(num_max=2**64 - 1, text_len=1))
-        return Adt('Zerv', 0, [r.fields[0], sv.value(I)])
+        svs.append(sv)
+        vars_ = sv.value(I)
+        # last_tag_version is not part of the rendering menus' SymVars: symbolic here (presence + one character)
+        lp, lc = w.fresh_int(tag + '_has_ltv', 0, 1), w.fresh_int(tag + '_ltv')
+        w.assume(C.domain(lc))
+        vars_.fields[c06.FIELDS.index('last_tag_version')] = Adt('Option', lp, [StringObj([lc])])
+        ltv.append((lp, lc))
+        return Adt('Zerv', 0, [r.fields[0], vars_])
+    svs, ltv = [], []
+
+    def conc(k, m):
+        d = svs[k].concrete(m)
+        lp, lc = ltv[k]
+        d['last_tag_version'] = [m.eval(lc, model_completion=True).as_long()] if m.eval(lp, model_completion=True).as_long() else None
+        return d
     A, B = build(oa, 'A'), build(ob, 'B')
     try:
         ta, tb = MSD.ser_value(I, A), MSD.ser_value(I, B)
@@ -264,8 +284,9 @@ def path_ser(ctx, arg):
     m = w.find(z3.And(MSD._b(same_doc), cond))
     if m is not None:
         # which part differs while the document is the same
-        what = 'precedence_order' if oa != ob else 'contents'
-        ctx.violation(clause='not_injective', what=what, orders=[na, nb], order_a=oa, order_b=ob, schema=c06.schema_json(spec) if what == 'precedence_order' else None,
+        what = 'precedence_order' if oa != ob else ('schema' if spec_a != spec_b else 'contents')
+        ctx.violation(clause='not_injective', what=what, orders=[na, nb], order_a=oa, order_b=ob, schema=None, kinds=[repr(spec_a[2][-1]), repr(spec_b[2][-1])],
+                      vars_a=conc(0, m), vars_b=conc(1, m),
                       detail='two different Zerv objects (%s: %s vs %s) serialise to the same document' % (what, na, nb), vkey='inj|' + what)
     else:
         ctx.tag('injective')
@@ -276,6 +297,12 @@ def ser_args(tier):
     spec = ([('var', 'Major'), ('var', 'Minor'), ('var', 'Patch')], [('var', 'Epoch'), ('var', 'PreRelease'), ('var', 'Post'), ('var', 'Dev'), ('str', 'x')],
             [('var', 'BumpedBranch'), ('uint', 0), ('var', 'Distance')])
     out = [dict(orders=(orders[0], orders[0]), schema=spec)]
+    # two schemas that differ in the kind of one build component (same payload text): the documents must differ
+    kinds = [('var', 'Distance'), ('var', 'Dirty'), ('ts', 'YYYY'), ('custom', 'YYYY'), ('str', 'YYYY'), ('uint', 0), ('var', 'BumpedCommitHashShort'), ('var', 'LastCommitHashShort')]
+    for i in range(len(kinds)):
+        for j in range(i + 1, len(kinds)):
+            mk = lambda k: (spec[0], spec[1], [('var', 'BumpedBranch'), k])
+            out.append(dict(orders=(orders[0], orders[0]), schema=mk(kinds[i]), schema_b=mk(kinds[j])))
     for i in range(len(orders)):
         for j in range(i + 1, len(orders)):
             if tier == 'quick' and i > 0 and j != i + 1:
